@@ -91,7 +91,7 @@ Definition strip_dir_slash (s : str) : str :=
 (* files.AsRelativePath *)
 Definition as_rel (s : str) : str :=
   let c := trim_left is_slash (to_nix s) in
-  if (Nat.ltb 1 (length c)) && has_suffix [slash] s then c ++ [slash] else c.
+  if negb (is_empty c) && negb (seqb c [dot]) && has_suffix [slash] s then c ++ [slash] else c.
 
 (* files.AsExplicitRelativePath *)
 Definition as_explicit_rel (s : str) : str := dot :: slash :: as_rel s.
